@@ -18,9 +18,9 @@ SKIP_TRAITS = ('fmt::Debug', 'clone::Clone', 'cmp::', 'hash::Hash', 'default::De
 AUDIT = {
     'shift_and::ShiftAnd::new|explicit-panic|begin_panic(lit)<&str>':
         'documented refusal: assert!(m <= 64) outside the length limit of C08',
-    'shift_and::Matches::next|overflow-add|x0,1':
+    'shift_and::Matches::next|overflow-add|1,x0':
         'i is an Enumerate index of the text: i + 1 <= text length <= usize::MAX',
-    'shift_and::Matches::next|overflow-sub|Add(x0,1).0,arg1.shiftand.m':
+    'shift_and::Matches::next|overflow-sub|Add(1,x0).0,arg1.shiftand.m':
         'the accept bit (bit m-1) can only be set after m shifts, i.e. after at least m symbols: i + 1 >= m',
     'bndm::BNDM::new|explicit-panic|begin_panic(lit)<&str>':
         'documented refusal: assert!(m <= 64) outside the length limit of C08',
@@ -30,19 +30,19 @@ AUDIT = {
         'window <= text.len() by the outer loop guard and j >= 1',
     'bndm::Matches::next|overflow-sub|arg1.window,arg1.bndm.m':
         'window >= m (starts at m, only grows)',
-    'bndm::Matches::next|overflow-add|x0,1':
+    'bndm::Matches::next|overflow-add|1,x0':
         'j <= m <= 64',
     'bndm::Matches::next|overflow-sub|arg1.bndm.m,x0':
         'lastsuffix is a value of j taken when j != m and j <= m, so < m',
-    'bndm::Matches::next|overflow-add|arg1.window,Sub(arg1.bndm.m,x0).0':
+    'bndm::Matches::next|overflow-add|Sub(arg1.bndm.m,x0).0,arg1.window':
         'window <= text.len() <= isize::MAX and the shift is <= 64',
     'bom::BOM::new|unwrap|expect(Iterator::max(Clone::clone(IntoIterator::into_iter(arg1))),lit)<C>':
         'documented refusal of the empty pattern (C08 quantifies over non-empty patterns)',
-    'bom::BOM::new|overflow-add|ExactSizeIterator::len(IntoIterator::into_iter(arg1)),1':
+    'bom::BOM::new|overflow-add|1,ExactSizeIterator::len(IntoIterator::into_iter(arg1))':
         'm = pattern length <= isize::MAX',
-    'bom::BOM::new|overflow-add|x0,1':
+    'bom::BOM::new|overflow-add|1,x0':
         'm = pattern length <= isize::MAX',
-    'bom::BOM::new|index|index(x0,Sub(Add(x1,1).0,1).0)<std::vec::Vec<std::option::Option<usize>>>':
+    'bom::BOM::new|index|index(x0,Sub(Add(1,x1).0,1).0)<std::vec::Vec<std::option::Option<usize>>>':
         'suff has m + 1 entries and i - 1 = j < m',
     'bom::BOM::new|index|index(x0,(x1 as Some).0)<std::vec::Vec<vec_map::VecMap<usize>>>':
         'k_ is a suffix-link state < i - 1 + 1 = number of tables pushed so far (oracle construction invariant)',
@@ -52,7 +52,7 @@ AUDIT = {
         'k_ < i <= m and suff has m + 1 entries',
     'bom::BOM::new|unwrap|unwrap(VecMap::get(Index<I>>::index(x0,(x1 as Some).0),Borrow::borrow(x2)))<&usize>':
         'the loop left through `break` exactly when table[k].contains_key(a)',
-    'bom::BOM::new|index|index_mut(x0,Add(x1,1).0)<std::vec::Vec<std::option::Option<usize>>>':
+    'bom::BOM::new|index|index_mut(x0,Add(1,x1).0)<std::vec::Vec<std::option::Option<usize>>>':
         'i = j + 1 <= m, suff has m + 1 entries',
     'bom::BOM::delta|index|index(arg1.table,arg2)<std::vec::Vec<vec_map::VecMap<usize>>>':
         'guarded by q >= self.table.len() on the other branch',
@@ -60,15 +60,15 @@ AUDIT = {
         'j <= m (inner loop guard) and window >= m',
     'bom::Matches::next|bounds|idx=Sub(arg1.window,x0).0,len=PtrMetadata(arg1.text)':
         'window <= text.len() by the outer guard and j >= 1',
-    'bom::Matches::next|overflow-add|x0,1':
+    'bom::Matches::next|overflow-add|1,x0':
         'j <= m',
     'bom::Matches::next|overflow-sub|arg1.window,arg1.bom.m':
         'window >= m',
-    'bom::Matches::next|overflow-add|arg1.bom.m,2':
+    'bom::Matches::next|overflow-add|2,arg1.bom.m':
         'm <= isize::MAX',
-    'bom::Matches::next|overflow-sub|Add(arg1.bom.m,2).0,x0':
+    'bom::Matches::next|overflow-sub|Add(2,arg1.bom.m).0,x0':
         'j <= m + 1 after the inner loop',
-    'bom::Matches::next|overflow-add|arg1.window,Sub(Add(arg1.bom.m,2).0,x0).0':
+    'bom::Matches::next|overflow-add|Sub(Add(2,arg1.bom.m).0,x0).0,arg1.window':
         'window, m <= isize::MAX',
     'horspool::Horspool::new|overflow-sub|slice::len(arg1),1':
         'non-empty pattern (quantifier of C08): m >= 1',
@@ -86,15 +86,15 @@ AUDIT = {
         'guarded by last < n (= text.len()) in the same condition / by the early return on last >= n',
     'horspool::Matches::next|index|index(arg1.horspool.shift,arg1.text[arg1.last])<std::vec::Vec<usize>>':
         'shift has 256 entries, index is a u8',
-    'horspool::Matches::next|overflow-add|arg1.last,Index<I>>::index(arg1.horspool.shift,arg1.text[arg1.last])':
+    'horspool::Matches::next|overflow-add|Index<I>>::index(arg1.horspool.shift,arg1.text[arg1.last]),arg1.last':
         'last < n <= isize::MAX and shift <= m <= isize::MAX',
-    'horspool::Matches::next|overflow-sub|Add(arg1.last,1).0,arg1.horspool.m':
+    'horspool::Matches::next|overflow-sub|Add(1,arg1.last).0,arg1.horspool.m':
         'last starts at m - 1 and only grows',
     'horspool::Matches::next|index|index(arg1.horspool.shift,arg1.pattern_last)<std::vec::Vec<usize>>':
         'shift has 256 entries, index is a u8',
-    'horspool::Matches::next|overflow-add|arg1.last,Index<I>>::index(arg1.horspool.shift,arg1.pattern_last)':
+    'horspool::Matches::next|overflow-add|Index<I>>::index(arg1.horspool.shift,arg1.pattern_last),arg1.last':
         'last < n <= isize::MAX and shift <= m',
-    'horspool::Matches::next|index|index(arg1.text,Range::Range{Sub(Add(arg1.last,1).0,arg1.horspool.m).0,arg1.last})<[u8]>':
+    'horspool::Matches::next|index|index(arg1.text,Range::Range{Sub(Add(1,arg1.last).0,arg1.horspool.m).0,arg1.last})<[u8]>':
         'i = last + 1 - m <= j = last < n',
     'horspool::Matches::next|overflow-sub|arg1.horspool.m,1':
         'm >= 1',
